@@ -31,7 +31,10 @@ func vhStubsOn() bool { return vhOn }
 var vhRealDecode bool
 
 func vhDecodeStubOn() bool { return vhOn && !vhRealDecode }
-func vhYamlStubOn() bool   { return vhOn && vhRealDecode }
+func vhYamlStubOn() bool   { return vhOn && vhRealDecode && !vhYamlCarrier }
+
+// the stream under decoding is a YAML carrier: the real YAML loop runs on it
+var vhYamlCarrier bool
 
 // the YAML decoder (gopkg.in/yaml.v3) is outside the encodable fragment: in the
 // stream harness it only sees streams the JSON decoder rejected, and rejects them too
@@ -207,8 +210,11 @@ func vhB(b bool) int {
 func VH_C13_stream() {
 	vhOn, vhRealDecode = true, true
 	n := zz.Len("ndocs", 0, zz.Param("maxdocs", 3))
+	// the same documents written as JSON or as YAML
+	asYaml := zz.Concretize(vhB(zz.Bool("written_as_yaml"))) == 1
+	vhYamlCarrier = asYaml
 	malformedAt := -1
-	if zz.Bool("malformed") {
+	if !asYaml && zz.Bool("malformed") {
 		malformedAt = zz.Len("malformed_at", 0, n)
 	}
 	docs := make([]map[string]any, n)
@@ -218,6 +224,11 @@ func VH_C13_stream() {
 		op := zz.OneOf("op"+si, string(Create), string(Delete), string(MergePatch), string(JQPatch))
 		d := map[string]any{"operation": op, "kind": "Pod", "name": "o" + si}
 		w := OperationSpec{Operation: OperationType(op), Kind: "Pod", Name: "o" + si}
+		if i == 1 && zz.Bool("second_document_without_operation") {
+			// an (invalid) document is still a document: it is decoded, and rejected later
+			delete(d, "operation")
+			w.Operation = ""
+		}
 		if zz.Bool("has_namespace" + si) {
 			d["namespace"] = "ns" + si
 			w.Namespace = "ns" + si
@@ -244,7 +255,13 @@ func VH_C13_stream() {
 		}
 		docs[i], want[i] = d, w
 	}
-	specs, err := unmarshalFromJSONOrYAML(zz.JSONDocs(malformedAt, docs...))
+	var stream []byte
+	if asYaml {
+		stream = zz.YAMLDocs(docs...)
+	} else {
+		stream = zz.JSONDocs(malformedAt, docs...)
+	}
+	specs, err := unmarshalFromJSONOrYAML(stream)
 	if malformedAt >= 0 {
 		zz.Assert(err != nil, "undecodable_stream_is_an_error")
 		zz.Assert(len(specs) == 0, "undecodable_stream_yields_nothing")
@@ -266,6 +283,6 @@ func VH_C13_stream() {
 		wp, _ := w.MergePatch.(string)
 		zz.Assert(mp == wp && (g.MergePatch == nil) == (w.MergePatch == nil), "omitted_patch_is_nil")
 	}
-	vhOn, vhRealDecode = false, false
+	vhOn, vhRealDecode, vhYamlCarrier = false, false, false
 	zz.Reach("end")
 }
